@@ -7,6 +7,7 @@ import DC.Spec.Embed
 import DC.Model.ExplainSelect
 import DC.Model.ExplainDDL
 import DC.Model.Lexer
+import DC.Model.LexerRd
 import DC.Model.LitDriver
 import DC.Model.Types
 import DC.Model.ExplainExpr
@@ -25,6 +26,7 @@ def handlers : List (String → List String → Option String) := [
   DC.Model.ExplainSelect.handle, -- c04 (ops `selshape`, `selshapeinh`, `unionshape`)
   DC.Model.ExplainDDL.handle, -- c04 DDL pairs (ops `altershape`, `altername`, `statshape`, `projshape`, `projselshape`, `colshape`, `idxshape`, `createshape`, `colsdefshape`, `storageshape`, `innerstorageshape`)
   DC.Lexer.handle,           -- c12/c13 (ops `lex`, `uni`)
+  DC.LexerRd.handle,         -- c14 lexer over bufio over a scripted reader (op `lexbufio`)
   DC.Model.LitDriver.handle, -- c09 (ops `c09num`, `c09str`, `c09float`, `c09nest`, `c09dec`)
   DC.Types.handle,           -- c18 (ops `c18`, `c18ty`)
   DC.Model.ExplainExpr.handle -- c04/c07 expression core (op `xexpr`)
